@@ -4633,6 +4633,9 @@ class PyCdlib:
         if child.inode is None:
             raise pycdlibexception.PyCdlibInternalError('Child file found without inode')
 
+        if child.inode.original_data_location != child.inode.DATA_ON_ORIGINAL_ISO:
+            raise pycdlibexception.PyCdlibInvalidInput('Only a file that is stored on the opened ISO can be modified in place')
+
         child.inode.update_fp(fp, length)
 
         # Remove the old size from the PVD size.
